@@ -230,14 +230,14 @@ def run_tlc_set(wd, jobs, parallel=3):
 
 
 def leg_m_jobs(tier):
-    jobs = [("MCSync", "Sync_honest_quick.cfg", "Sync honest 2 nodes, all assignments of TreeA: safety", 4, 600),
-            ("MCSync", "Sync_honest_live2.cfg", "Sync honest 2 nodes: Convergence under weak fairness", 4, 900),
-            ("MCSync", "Sync_honest_cp2.cfg", "Sync honest 2 nodes, one bootstrapped from a checkpoint (history anchored): safety + Convergence", 4, 900)]
+    jobs = [("SyncMC", "Sync_honest_quick.cfg", "Sync honest 2 nodes, all assignments of TreeA: safety", 4, 600),
+            ("SyncMC", "Sync_honest_live2.cfg", "Sync honest 2 nodes: Convergence under weak fairness", 4, 900),
+            ("SyncMC", "Sync_honest_cp2.cfg", "Sync honest 2 nodes, one bootstrapped from a checkpoint (history anchored): safety + Convergence", 4, 900)]
     if tier == "quick":
-        jobs.append(("MCSync", "Sync_honest_line3q.cfg", "Sync honest 3 nodes in a line, TreeC: safety + Convergence", 6, 900))
+        jobs.append(("SyncMC", "Sync_honest_line3q.cfg", "Sync honest 3 nodes in a line, TreeC: safety + Convergence", 6, 900))
     else:
-        jobs.append(("MCSync", "Sync_honest_line3.cfg", "Sync honest 3 nodes in a line, all assignments of TreeC: safety + Convergence", 8, 3000))
-        jobs.append(("MCSync", "Sync_honest_tri3.cfg", "Sync honest 3 nodes in a triangle, TreeC, 3 assignments: safety + Convergence", 8, 3000))
+        jobs.append(("SyncMC", "Sync_honest_line3.cfg", "Sync honest 3 nodes in a line, all assignments of TreeC: safety + Convergence", 8, 3000))
+        jobs.append(("SyncMC", "Sync_honest_tri3.cfg", "Sync honest 3 nodes in a triangle, TreeC, 3 assignments: safety + Convergence", 8, 3000))
     return jobs
 
 
@@ -400,7 +400,7 @@ ASSUMPTIONS = [
 
 # ------------------------------------------------------------------ Leg R: spec -> code
 
-TREES = {   # parent maps of MCSync.tla's TreeB / TreeC (the Go harness materialises them: replay.go)
+TREES = {   # parent maps of SyncMC.tla's TreeB / TreeC (the Go harness materialises them: replay.go)
     "B": dict(g="g", t1="g", a2="t1", a3="a2", a4="a3", z2="t1", z3="z2", y2="t1", w4="a3", v2="t1", v3="v2"),
     "C": dict(g="g", t1="g", a2="t1", a3="a2", a4="a3", b2="t1", b3="b2", c3="a2"),
 }
@@ -587,7 +587,7 @@ def macro_paths(inits, start, medges, states, rng, max_paths, max_len=9):
 def leg_r(wd, tier, binary, verdict, family="honest", stub=None):
     cfg = "Sync_edges_honest.cfg" if family == "honest" else "Sync_edges_byz.cfg"
     honest = {"v", "p", "q"} if family == "honest" else {"v", "p"}
-    r = vlib.run_tlc(wd, "MCSync", cfg, workers=1, timeout=900, tag="edges_" + family)
+    r = vlib.run_tlc(wd, "SyncMC", cfg, workers=1, timeout=900, tag="edges_" + family)
     vlib.tlc_must_pass(r, "Sync edge export (%s)" % family)
     inits, start, medges, states = macro_graph(r.edges, honest, TREES["C" if family == "honest" else "B"])
     nst, ned = vlib.graph_stats(r.edges)
@@ -713,7 +713,7 @@ def selftest():
     for cfg, what in (("Sync_honest_line3_noannounce.cfg", "no re-announcement: Convergence fails (swallowed relay)"),
                       ("Sync_honest_line3_headeronly.cfg", "header-only announcements: Convergence fails (one block behind)"),
                       ("Sync_honest_cp2_dev.cfg", "history not anchored at a checkpoint node's lowest block: Convergence fails")):
-        x = vlib.run_tlc(wd, "MCSync", cfg, workers=4, timeout=900)
+        x = vlib.run_tlc(wd, "SyncMC", cfg, workers=4, timeout=900)
         good = x.exit != 0 and "Temporal property Convergence was violated" in (x.error or "") + x.out
         log("selftest 3 (%s): %s" % (what, "ok" if good else "FAILED"))
         ok3 = ok3 and good
